@@ -480,6 +480,7 @@ func graphGen(w *bufio.Writer, a map[string]string) {
 		genBlock(w, rng, block{n: 4, maxEdges: 2, reqLen: 1, variants: true})
 		genRandom(w, rng, 600, 4, 3)
 		genWithVars(w, 3)
+		genPrefixes(w, 3)
 		return
 	}
 	genBlock(w, rng, block{n: 1, maxEdges: 1, reqLen: 3, reps: 3, failsPerReq: 2, variants: true})
@@ -494,6 +495,33 @@ func graphGen(w *bufio.Writer, a map[string]string) {
 	genBlock(w, rng, block{n: 4, maxEdges: 3, reqLen: 1, variants: true})
 	genRandom(w, rng, 5000, 4, 20)
 	genWithVars(w, 3)
+	genPrefixes(w, 3)
+}
+
+// genPrefixes: tasks with longer names ("aa", "bb", …), requested by a proper prefix ("a") or by a longer spelling ("aaa"):
+// a name that is not the name of a task is an undefined task, however close it comes
+func genPrefixes(w *bufio.Writer, n int) {
+	long := func(defs []def) []def {
+		out := cloneDefs(defs)
+		for i := range out {
+			out[i].name += out[i].name
+			for j := range out[i].deps {
+				out[i].deps[j] += out[i].deps[j]
+			}
+		}
+		return out
+	}
+	for k := 1; k <= n; k++ {
+		for mask := uint64(0); mask < 1<<uint(k*k); mask++ {
+			defs := long(graphDefs(k, mask, 0))
+			for i := 0; i < k; i++ {
+				nm := taskNames[i]
+				emit(w, tcase{defs: defs, req: []string{nm}}, 0)
+				emit(w, tcase{defs: defs, req: []string{nm + nm + nm}}, 0)
+				emit(w, tcase{defs: defs, req: []string{nm + nm, nm}}, 0)
+			}
+		}
+	}
 }
 
 // genWithVars: every graph over ≤ n tasks again with a global variable for every task name (and one more), every single request
